@@ -1460,6 +1460,7 @@ class FnPass:
         self.cond_facts = {}   # local (Result carrier) -> list of (arg_local_operand, lo, hi) valid when Ok
         nb = len(fn.blocks)
         IN = [None] * nb
+        self._IN = IN
         IN[0] = init
         visits = [0] * nb
         order = fn.rpo()
@@ -1950,6 +1951,12 @@ class FnPass:
         cond = None
         if dty == "bool":
             cond = self.cond_of_operand(disc)
+        if dty == "bool" and (cond is None or cond[0] == "bool"):
+            # a boolean assembled on the way (`matches!(x, 1..=63)`, `a && b` stored in a local): the local is set to a constant in one
+            # block per outcome; on the edge for an outcome, what held where that constant was assigned still holds
+            outs_ = self._bool_diamond(b, st, disc, arms, otherwise)
+            if outs_ is not None:
+                return self._merge_same_target(outs_)
         if dty == "bool" and cond is not None:
             for val, tgt in arms:
                 nst = self.apply_cond(st, cond, bool(val))
@@ -2032,6 +2039,82 @@ class FnPass:
             outs.append((tgt, dict(st)))
         outs.append((otherwise, dict(st)))
         return self._merge_same_target(outs)
+
+    def _bool_diamond(self, b, st, disc, arms, otherwise):
+        fn = self.fn
+        pl = op_place(disc)
+        if pl is None or not isinstance(pl, int):
+            return None
+        neg = False
+        l = pl
+        for _ in range(4):
+            ds = fn.defs().get(l, [])
+            if len(ds) == 1 and ds[0][1] != "t" and ds[0][2] == "assign":
+                rv = fn.blocks[ds[0][0]].stmts[ds[0][1]][2]
+                if rv[0] == "use" and isinstance(op_place(rv[1]), int):
+                    l = op_place(rv[1])
+                    continue
+                if rv[0] == "un" and rv[1] == "Not" and isinstance(op_place(rv[2]), int):
+                    l = op_place(rv[2])
+                    neg = not neg
+                    continue
+            break
+        ds = fn.defs().get(l, [])
+        if len(ds) < 2 or any(d[1] == "t" or d[2] != "assign" for d in ds):
+            return None
+        by_val = {0: [], 1: []}
+        touched = set()
+        for (db, di, _k) in ds:
+            rv = fn.blocks[db].stmts[di][2]
+            k = op_const(rv[1]) if rv[0] == "use" else None
+            if k is None or not isinstance(k.get("v"), (bool, int)) or fn.local_ty(l) != "bool":
+                return None
+            by_val[1 if k["v"] else 0].append(db)
+            for s_ in fn.blocks[db].stmts:
+                if s_[0] == "=":
+                    touched.add(s_[1] if isinstance(s_[1], int) else s_[1][0])
+        for s_ in fn.blocks[b].stmts:
+            if s_[0] == "=":
+                touched.add(s_[1] if isinstance(s_[1], int) else s_[1][0])
+        IN = getattr(self, "_IN", None)
+        if IN is None:
+            return None
+
+        def edge_state(truth):
+            val = (not truth) if neg else truth
+            srcs_ = [IN[db] for db in by_val[1 if val else 0] if IN[db] is not None]
+            if not srcs_:
+                return dict(st)
+            nst = dict(st)
+            keys = set(srcs_[0].keys())
+            for s_ in srcs_[1:]:
+                keys &= set(s_.keys())
+            for key in keys:
+                if not isinstance(key, int) or key < 0 or key in touched or key in self.escaped:
+                    continue
+                jv = None
+                for s_ in srcs_:
+                    jv = s_[key] if jv is None else vjoin(jv, s_[key])
+                cur = self.get(nst, key)
+                if jv is None or jv[0] is None or jv[0] == "bot" or cur[0] is None or cur[0] == "bot":
+                    continue
+                lo, hi = max(cur[0], jv[0]), min(cur[1], jv[1])
+                if lo > hi:
+                    return None
+                nst[key] = (lo, hi, cur[2], cur[3] or jv[3])
+            return nst
+        outs = []
+        for val, tgt in arms:
+            nst = edge_state(bool(val))
+            if nst is not None:
+                outs.append((tgt, nst))
+        vals = set(v for v, _ in arms)
+        rest = [x for x in (0, 1) if x not in vals]
+        if rest:
+            nst = edge_state(bool(rest[0]))
+            if nst is not None:
+                outs.append((otherwise, nst))
+        return outs
 
     def _merge_same_target(self, outs):
         m = {}
